@@ -219,6 +219,62 @@ def PSubmit (signed : List Nat) (subs : List (List Nat)) : Prop := subs = [signe
 
 instance (a : List Nat) (b : List (List Nat)) : Decidable (PSubmit a b) := by unfold PSubmit; infer_instance
 
+/-! ### the periodic "already executed?" check of the EVM / Substrate watch loops
+
+  `watchExecution` (both executors): on every tick of `executionCheckPeriod`, `areProposalsExecuted(batch)`; if true the
+  session returns nil ("successfully executed") and its deferred `cancelExecution()` stops the signing. The answers
+  of the destination at each tick are inputs: one vector per tick, one answer per member of the batch. -/
+
+/-- `areProposalsExecuted`: every member is reported executed; a lookup error counts as "not yet" -/
+def allExecuted : List Ans → Bool
+  | [] => true
+  | a :: r => a = .exec && allExecuted r
+
+/-- the members the sweep asks about (it stops after the first answer that is not "executed") -/
+def askedFrom : Nat → List Ans → List Nat
+  | _, [] => []
+  | i, a :: r => if a = .exec then i :: askedFrom (i+1) r else [i]
+
+def asked (v : List Ans) : List Nat := askedFrom 0 v
+
+/-- the watch loop without a signature arriving: the first tick (counted from `t`) at which the session is closed as
+    executed; `none` = still waiting after the scripted ticks -/
+def watchFrom : Nat → List (List Ans) → Option Nat
+  | _, [] => none
+  | t, v :: r => if allExecuted v then some t else watchFrom (t+1) r
+
+def watch (script : List (List Ans)) : Option Nat := watchFrom 0 script
+
+/-- the sweeps the loop performs: one per tick up to and including the closing one -/
+def sweeps : List (List Ans) → List (List Nat)
+  | [] => []
+  | v :: r => if allExecuted v then [asked v] else asked v :: sweeps r
+
+/-- PTick: one sweep says "all executed" iff every member is reported executed -/
+def PTick (v : List Ans) (r : Bool) : Prop := r = true ↔ ∀ a ∈ v, a = .exec
+
+instance (v : List Ans) (r : Bool) : Decidable (PTick v r) := by unfold PTick; infer_instance
+
+/-- every member of the batch is reported executed at tick `t` of the script -/
+def AllExecAt (script : List (List Ans)) (t : Nat) : Prop :=
+  match script[t]? with
+  | some v => ∀ a ∈ v, a = .exec
+  | none => False
+
+instance (script : List (List Ans)) (t : Nat) : Decidable (AllExecAt script t) := by
+  unfold AllExecAt; split <;> infer_instance
+
+/-- PWatch: the session is closed as executed at tick `t` only if every member is reported executed at that tick
+    (so a member that is still pending, or whose lookup fails, is never dropped), and it is not kept open past a tick
+    at which all members are executed -/
+def PWatch (script : List (List Ans)) (closed : Option Nat) : Prop :=
+  match closed with
+  | some t => AllExecAt script t ∧ ∀ t' < t, ¬ AllExecAt script t'
+  | none   => ∀ t' < script.length, ¬ AllExecAt script t'
+
+instance (script : List (List Ans)) (closed : Option Nat) : Decidable (PWatch script closed) := by
+  unfold PWatch; split <;> infer_instance
+
 /-! ### histories -/
 
 /-- EVM / Substrate: the destination's executed set only grows -/
